@@ -272,6 +272,11 @@ Plan generate_plan(const std::string& prop, unsigned long long vseed, unsigned l
             p.ops.push_back(o);
         }
         p.extra = J::obj(); p.extra.set("enumerate_loss", 1);
+        if (r.chance(300)) {   // also sweep the allocation failures of one call that takes read-only arguments (or any allocating call)
+            std::vector<int> elig, pref;
+            for (int i = 0; i < (int)p.ops.size(); i++) { int k = p.ops[(size_t)i].kind; if (k == OP_ADDBASE || k == OP_REMOVEBASE) pref.push_back(i); if (k == OP_PARSE || k == OP_ADDBASE || k == OP_REMOVEBASE || k == OP_NORMALIZE || k == OP_MAKEOWNER) elig.push_back(i); }
+            if (!pref.empty() && r.chance(800)) p.ops[(size_t)r.pick(pref)].fail_k = K_ALL; else if (!elig.empty()) p.ops[(size_t)r.pick(elig)].fail_k = K_ALL;
+        }
     } else if (prop == "C17") {
         p.mgrs = {MK_LIBC, MK_SIM, MK_COMPLETED}; p.mgr_mask = {0, 0, 0};
         int giant_cases = 10;
